@@ -27,6 +27,8 @@ pub struct DumpResult {
     pub layouts: BTreeMap<String, Observed>,
     /// compiler errors other than the layout dumps
     pub errors: Vec<String>,
+    /// "<module>::<Enum>::<Variant>=<value as written>" whose compiled value differs
+    pub discriminant_mismatches: Vec<String>,
     pub tool_failure: Option<String>,
 }
 
@@ -44,6 +46,11 @@ impl Copy for f32 {} impl Copy for f64 {} impl Copy for bool {} impl Copy for us
 impl<T: PointeeSized> Copy for *const T {} impl<T: PointeeSized> Copy for *mut T {}
 #[lang = "neg"] pub trait Neg { type Output; fn neg(self) -> Self::Output; }
 impl Neg for isize { type Output = isize; fn neg(self) -> isize { -self } }
+impl Neg for i8 { type Output = i8; fn neg(self) -> i8 { -self } }
+impl Neg for i16 { type Output = i16; fn neg(self) -> i16 { -self } }
+impl Neg for i32 { type Output = i32; fn neg(self) -> i32 { -self } }
+impl Neg for i64 { type Output = i64; fn neg(self) -> i64 { -self } }
+impl Neg for i128 { type Output = i128; fn neg(self) -> i128 { -self } }
 #[repr(u8)] pub enum __c_void { __A = 0, __B = 1 }
 "#;
 
@@ -88,6 +95,7 @@ pub fn build_crate(files: &[(String, String)], externs: &[ExternDef]) -> Result<
     let mut aliases: Vec<(String, String)> = vec![]; // (module path, item name)
     let mut field_types: BTreeMap<String, Vec<String>> = BTreeMap::new();
     let mut type_set: Vec<String> = vec![];
+    let mut discr: Vec<(String, String, String, String, i128)> = vec![];
     for (mpath, text) in files {
         let file = syn::parse_file(text).map_err(|e| format!("{mpath}: {e}"))?;
         let node = insert(&mut root, mpath);
@@ -122,6 +130,32 @@ pub fn build_crate(files: &[(String, String)], externs: &[ExternDef]) -> Result<
                         v.attrs.clear();
                     }
                     let name = e.ident.to_string();
+                    // the integer type of the enum and the value each variant is written with
+                    let mut base = None;
+                    for a in &e.attrs {
+                        if a.path().is_ident("repr") {
+                            let _ = a.parse_nested_meta(|m| {
+                                if let Some(i) = m.path.get_ident() {
+                                    let i = i.to_string();
+                                    if crate::c08::int_range(&i).is_some() {
+                                        base = Some(i);
+                                    }
+                                }
+                                Ok(())
+                            });
+                        }
+                    }
+                    if let Some(base) = base {
+                        for v in &e.variants {
+                            if let Some((_, d)) = &v.discriminant {
+                                if let (Some(val), Some((lo, hi))) = (crate::emitted::int_of(d), crate::c08::int_range(&base)) {
+                                    if val >= lo && val <= hi {
+                                        discr.push((mpath.clone(), name.clone(), v.ident.to_string(), base.clone(), val));
+                                    }
+                                }
+                            }
+                        }
+                    }
                     node.items.push(e.to_token_stream().to_string());
                     aliases.push((mpath.clone(), name));
                 }
@@ -162,6 +196,16 @@ pub fn build_crate(files: &[(String, String)], externs: &[ExternDef]) -> Result<
     for (i, t) in type_set.iter().enumerate() {
         text.push_str(&format!("#[rustc_dump_layout(debug)] type __F{i} = {t};\n"));
         lines.insert(line, format!("ty:{t}"));
+        line += 1;
+    }
+    // the value each variant has AS COMPILED for the target must be the one it was written
+    // with: an array length that depends on it turns a difference into a type error
+    for (mpath, name, variant, base, val) in &discr {
+        let lit = if *val < 0 { format!("-{}{base}", val.unsigned_abs()) } else { format!("{val}{base}") };
+        text.push_str(&format!(
+            "const _: [u8; 1] = [0u8; match crate::{mpath}::{name}::{variant} as {base} {{ {lit} => 1, _ => 2 }}];\n"
+        ));
+        lines.insert(line, format!("discr:{mpath}::{name}::{variant}={val}"));
         line += 1;
     }
     Ok((text, lines, field_types))
@@ -258,6 +302,10 @@ pub fn dump(files: &[(String, String)], externs: &[ExternDef], ptrw: usize, work
         } else if msg.starts_with("aborting due to") {
         } else {
             let code = v["code"]["code"].as_str().unwrap_or("");
+            if let Some(d) = lines.get(&ln).and_then(|l| l.strip_prefix("discr:")) {
+                res.discriminant_mismatches.push(format!("{d} ({code} {})", crate::verdict::one_line(msg, 120)));
+                continue;
+            }
             let src_line = text.lines().nth(ln.saturating_sub(1)).unwrap_or("");
             res.errors.push(format!("{code} {msg} @ line {ln}: {}", crate::verdict::one_line(src_line, 200)));
         }
